@@ -298,7 +298,7 @@ def run_history(unit):
         return v, obligations(v, m)
     zv = {n: z3.Real(n) for n in names}
     n = 0
-    for pr in core.explore(fn, max_paths=3000):
+    for pr in core.explore(fn, max_paths=60000):
         log.path(pr)
         n += 1
         if pr.aborted:
